@@ -39,7 +39,7 @@ type restStep struct {
 	HasSkew bool         `json:"has_skew,omitempty"`
 	Skew    uint64       `json:"skew,omitempty"`
 	Dist    int          `json:"dist,omitempty"`
-	Mut     int          `json:"mut,omitempty"` // 0 none, 1 digit edit, 2 truncate, 3 extend, 4.. look-alikes (see mutate)
+	Mut     int          `json:"mut,omitempty"`        // 0 none, 1 digit edit, 2 truncate, 3 extend, 4.. look-alikes (see mutate)
 	SibDig  int          `json:"sib_digits,omitempty"` // != 0: submit the genuine code of the counter under THIS code length instead
 	RawName string       `json:"raw_name,omitempty"`
 	Cfg     ref.OCRACfg  `json:"cfg"`
